@@ -93,7 +93,11 @@ Section Storage.
     | _, _ => []
     end.
 
-  (* merge_node: leaf keeps its own `forced`; `extend(other.elements)` = extend(into_iter) *)
+  (* has_rows (c041ccb5709): recursive_iter().next().is_some() *)
+  Definition shas_rows (h : nat) (t : sght) : bool := negb (is_nil (sriter h t)).
+
+  (* merge_node: leaf keeps its own `forced`; `extend(other.elements)` = extend(into_iter);
+     Vacant => changed |= has_rows(&v) *)
   Fixpoint smerge (h : nat) (a b : sght) : sght * bool :=
     match h, a, b with
     | 0, SLeaf sa fa, SLeaf sb _ =>
@@ -105,14 +109,14 @@ Section Storage.
                        match scget ca (fst kv) with
                        | Some c => let '(c', chg) := smerge h' c (snd kv) in
                                    (screplace ca (fst kv) c', changed || chg)
-                       | None => (ca ++ [kv], true)
+                       | None => (ca ++ [kv], changed || shas_rows h' (snd kv))
                        end) cb (ca, false) in
         (SInner ca', changed)
     | _, _, _ => (a, false)
     end.
 
   (* PartialOrd (and IsBot, Merge): leaves need Storage: VariadicSet, i.e. the hash set only *)
-  Fixpoint spcmp_loop (f : sght -> sght -> pres) (ca cb : list (N * sght)) (ks : list N)
+  Fixpoint spcmp_loop (hr : sght -> bool) (f : sght -> sght -> pres) (ca cb : list (N * sght)) (ks : list N)
            (sag oag : bool) : pres :=
     match ks with
     | [] => match sag, oag with
@@ -120,7 +124,7 @@ Section Storage.
             | false, false => PSome Eq | true, true => PPanic
             end
     | key :: ks' =>
-      let next := fun s o => if s && o then PNone else spcmp_loop f ca cb ks' s o in
+      let next := fun s o => if s && o then PNone else spcmp_loop hr f ca cb ks' s o in
       match scget ca key, scget cb key with
       | Some x, Some y =>
         match f x y with
@@ -130,8 +134,8 @@ Section Storage.
         | PNone => PNone
         | PPanic => PPanic
         end
-      | Some _, None => next true oag
-      | None, Some _ => next sag true
+      | Some x, None => next (sag || hr x) oag
+      | None, Some y => next sag (oag || hr y)
       | None, None => PPanic
       end
     end.
@@ -140,7 +144,7 @@ Section Storage.
     | 0, SLeaf (SSet ra) _, SLeaf (SSet rb) _ => pcmp 0 (Leaf ra) (Leaf rb)
     | S h', SInner ca, SInner cb =>
       if is_nil ca && is_nil cb then PSome Eq
-      else spcmp_loop (spcmp h') ca cb (map fst ca ++ map fst cb) false false
+      else spcmp_loop (shas_rows h') (spcmp h') ca cb (map fst ca ++ map fst cb) false false
     | _, _, _ => PPanic
     end.
 
@@ -151,13 +155,17 @@ Section Storage.
     | 0, SLeaf sa fa, SLeaf sb fb =>
         match st_eq sa sb with Some e => e | None => false end
     | S h', SInner ca, SInner cb =>
-      if negb (Nat.eqb (length ca) (length cb)) then false
-      else forallb (fun kc => match scget cb (fst kc) with
+      let live := fun ch : list (N * sght) =>
+        length (filter (fun kc => match scget ch (fst kc) with
+                                  | Some c => shas_rows h' c | None => false end) ch) in
+      if negb (Nat.eqb (live ca) (live cb)) then false
+      else forallb (fun kc => match scget ca (fst kc) with
                               | None => false
-                              | Some o => match scget ca (fst kc) with
-                                          | None => false
-                                          | Some t => speq h' t o
-                                          end
+                              | Some t => if negb (shas_rows h' t) then true
+                                          else match scget cb (fst kc) with
+                                               | Some o => speq h' t o
+                                               | None => false
+                                               end
                               end) ca
     | _, _, _ => false
     end.
@@ -349,15 +357,18 @@ Definition xans_eqb (x y : xans) : bool :=
   end.
 
 (* cause of a deviation of the implementation from the specification, read off the MODEL's
-   state before the operation: 2 = some inner node holds an empty child and the op looks at
-   children; 3 = unexplained.  (Class 1 used to be "some leaf is `forced` and the op is ==":
-   fixed in /repo by beb89003dcf.) *)
-Definition cause (nk : nat) (p : sght * sght) (o : xop) : N :=
-  let empty := has_empty_child nk (fst p) || has_empty_child nk (snd p) in
-  match o with
-  | XEq _ | XCmp _ | XMerge _ | XChildDrain _ _ => if empty then 2 else 3
-  | _ => 3
-  end%N.
+   state: no class of deviations is known any more (class 1 "forced flag in ==" fixed by
+   beb89003dcf, class 2 "empty child counts as content" fixed by c041ccb5709): 3 = unexplained *)
+Definition cause (nk : nat) (p : sght * sght) (o : xop) : N := 3%N.
+
+(* get_mut(&k) + drain() observes whether a child EXISTS, which is structure, not content: an
+   existing child without rows (Some []) and no child (None) are the same answer at the level of
+   rows, so they are identified when answers are compared. *)
+Definition norm_ans (o : xop) (x : xans) : xans :=
+  match o, x with
+  | XChildDrain _ _, XAOptRows (Some []) => XAOptRows None
+  | _, _ => x
+  end.
 
 (* run model and specification side by side against the implementation's answers:
    (all answers equal the model's, all equal the spec's, class of the deviations) where class is
@@ -371,6 +382,8 @@ Fixpoint xrun (k : kind) (a nk : nat) (p : sght * sght) (q : bag * bag) (ops : l
       let '(p', am) := xstep k a nk p o in
       let '(q', asp) := xspec_step k nk q o in
       let '(agree, holds, cls) := xrun k a nk p' q' ops' impl' in
+      let i := norm_ans o i in
+      let am := norm_ans o am in
       let ok := xans_eqb i asp in
       let c := if ok then 0%N else cause nk p o in
       (xans_eqb i am && agree, ok && holds, N.max c cls)
